@@ -203,6 +203,16 @@ func matrix() []*spec.Spec {
 		meth("m", body(ref("Branch")), body(ref("Branch"))),
 		meth("up", nil, body(ref("Leaf")), stream("client", body(ref("Branch")))),
 		meth("down", body(ref("Leaf")), body(ref("Branch")), stream("server", nil)))))
+	// attributes listed explicitly with Message(): their Required and validations must still be enforced
+	creds := utype("Creds", obj([]string{"user"}, fld(1, "user", prim(spec.String)), val(fld(2, "pass", prim(spec.String)), &spec.Val{MinLen: &two})))
+	add(design("rt-explicit-message", []*spec.UserType{creds}, svc("auth",
+		meth("login", body(obj([]string{"name", "creds"}, fld(1, "name", prim(spec.String)), fld(2, "creds", ref("Creds")), fld(3, "token", prim(spec.String)))),
+			body(obj([]string{"id", "creds"}, fld(1, "id", prim(spec.String)), fld(2, "creds", ref("Creds")))),
+			func(m *spec.Method) {
+				m.GRPC.Message = []spec.Loc{{Attr: "creds"}}
+				m.GRPC.RespMessage = []spec.Loc{{Attr: "creds"}}
+				m.GRPC.Metadata = []spec.Loc{{Attr: "token"}}
+			}))))
 	names := utype("Names", arr(prim(spec.String)))
 	add(design("array-user-type", []*spec.UserType{names}, svc("named",
 		meth("m", body(obj(nil, fld(1, "names", ref("Names")))), body(ref("Names"))))))
